@@ -447,6 +447,428 @@ def run_traces(ctx, n, events=None):
 
 
 # ----------------------------------------------------------------------------
+# the licensed saturation cut-off: several contributions, saturated bands and transparent windows in
+# the same layer (spec/Saturation.tla, MC_Saturation.tla, Trace_Saturation.tla)
+# ----------------------------------------------------------------------------
+
+SAT_S = 100000            # optical depths are logged in units of 1e-5
+SAT_CAP = 600.0           # a logged depth saturates here (the transmittance underflows beyond ~745)
+EM_S = 10 ** 9            # emission layer values exp(-xl) - exp(-xd) are logged in units of 1e-9
+LEVEL_UNIT = {'abs': 1e-26, 'table': 1e-30, 'cia': 1e-60}
+EXP10 = float(np.exp(-10.0))
+
+
+def sat_vec_class(vec, model):
+    """input class of an exported vector, as TLC computed it (documented rule 'all' and the slip 'any')"""
+    if model == 'emission':
+        if vec['emdisc']:
+            return 'coupled'
+        return 'licence-used' if vec['emdiff'] else ('dark' if any(vec['lic']) else 'thin')
+    if vec['disc']:
+        return 'coupled'
+    if vec['txdiff']:
+        return 'licence-used'
+    if vec['exits']:
+        return 'exit-in-both'
+    return 'dark-no-exit' if any(vec['lic']) else 'thin'
+
+
+def own_grid(nat, variant):
+    """a contribution's / second molecule's own wavenumber grid, given the model's native grid"""
+    nat = list(nat)
+    if variant == 'native' or len(nat) < 4:
+        return list(nat)
+    if variant == 'subset':
+        g = nat[::2]
+        return g if g[-1] == nat[-1] else g + [nat[-1]]
+    step = nat[1] - nat[0]
+    return [nat[0] - 0.7 * step] + [0.5 * (x + y) for x, y in zip(nat[1::2], nat[2::2])] + [nat[-1] + 0.9 * step]
+
+
+def levels_on(grid, nat, lev):
+    """level carried by an own-grid point = level of the nearest native point"""
+    nat = np.asarray(nat)
+    return [float(lev[int(np.argmin(np.abs(nat - x)))]) for x in grid]
+
+
+def calibrated_case(model, nat, rows, req, rng, label, *, nlayers, ref, temps, how, src=None, rayleigh_at=None):
+    """rows: [{'type': 'abs'|'table'|'cia', 'lev': level per native point (optical depth wanted in layer `ref`),
+               'variant': own-grid variant, 'second': variant of a second molecule or None}] in evaluation order.
+    Builds the model once with unit tables, measures what every contribution adds to layer `ref` with its own
+    contribute(), and rescales the tables so that the wanted levels are realised there.  Returns a self-contained,
+    JSON-able case (final tables), or None if a row cannot be calibrated."""
+    from .. import fx_saturation as fx
+    nat = [float(x) for x in nat]
+    comps = []
+    for r in rows:
+        lev = [float(x) for x in r['lev']]
+        jit = [1.0 + 0.03 * (rng.random() - 0.5) for _ in nat]
+        if r['type'] == 'abs':
+            mols = [['H2O', nat, [l * j * LEVEL_UNIT['abs'] for l, j in zip(lev, jit)]]]
+            if r.get('second'):
+                g2 = own_grid(nat, r['second'])
+                if r['second'] != 'same' and len(g2) >= len(nat):
+                    g2 = g2[:len(nat) - 1]
+                mols.append(['CH4', [float(x) for x in g2],
+                             [0.3 * l * (1.0 + 0.03 * (rng.random() - 0.5)) * LEVEL_UNIT['abs'] for l in levels_on(g2, nat, lev)]])
+            comps.append(dict(type='abs', mols=mols, lev=lev))
+        else:
+            g = own_grid(nat, r.get('variant', 'native'))
+            vals = [l * (1.0 + 0.03 * (rng.random() - 0.5)) * LEVEL_UNIT[r['type']] for l in levels_on(g, nat, lev)]
+            comps.append(dict(type=r['type'], grid=[float(x) for x in g], vals=vals, lev=lev))
+    if rayleigh_at is not None:
+        comps.insert(min(rayleigh_at, len(comps)), dict(type='rayleigh'))
+    geo = dict(nlayers=nlayers, pmin=1e1, pmax=1e5, temps=temps)
+    work = [dict(c) for c in comps]
+    try:
+        m = fx.build(model, work, **geo)
+        m.model()
+        xs = fx.measure(m, model)
+        for c, wk in zip(comps, work):
+            if c['type'] == 'rayleigh' or max(c['lev']) <= 0:
+                continue
+            x = xs[m.contribution_list.index(wk['contrib'])]
+            x = x[ref] if model == 'transmission' else x[1][ref]
+            w = int(np.argmax(c['lev']))
+            if not (x[w] > 0 and np.isfinite(x[w])):
+                return None
+            f = c['lev'][w] / float(x[w])
+            if c['type'] == 'abs':
+                c['mols'] = [[nm, g, [v * f for v in vals]] for nm, g, vals in c['mols']]
+            else:
+                c['vals'] = [v * f for v in c['vals']]
+    finally:
+        fx.clear_caches()
+    for c in comps:
+        c.pop('lev', None)
+    return dict(kind='sat', model=model, nat=nat, comps=comps, req=[float(x) for x in req], how=how, label=label,
+                ref=ref, src=src, **geo)
+
+
+def vector_case(vec, rng, model):
+    """an exported vector of MC_Saturation (levels per zone and contribution, computed set) -> real model case"""
+    nw, nc, how = len(vec['nat']), len(vec['inc']), vec['how']
+    k = rng.choice([2, 3, 4]) if how == 'set' else rng.choice([1, 2, 3])
+    scale, offset = rng.choice([(20.0, 1000.0), (7.0, 400.0), (50.0, 3000.0)])
+    nat = [offset + scale * (p + 0.25 * j) for p in vec['nat'] for j in range(k)]
+    zone = [w for w in range(nw) for _ in range(k)]
+    abs_row = rng.randrange(nc)
+    others = ['table', 'cia']
+    rng.shuffle(others)
+    rows, names = [], []
+    for r in range(nc):
+        lev = [vec['inc'][r][z] for z in zone]
+        if r == abs_row:
+            second = rng.choice([None, 'subset', 'shifted', 'same'])
+            rows.append(dict(type='abs', lev=lev, second=second))
+            names.append('abs' + ('+' + second if second else ''))
+        else:
+            variant = rng.choice(['native', 'subset', 'shifted'])
+            t = others.pop()
+            rows.append(dict(type=t, lev=lev, variant=variant))
+            names.append('%s@%s' % (t, variant))
+    if how == 'set':
+        req = [x for x, z in zip(nat, zone) if vec['a'] - 1 <= z <= vec['b'] - 1]
+    else:
+        req = [offset + scale * c for c in vec['oc']]
+    nlayers = rng.choice([5, 6, 8])
+    ref = rng.randrange(1, nlayers - 1)
+    temps = None
+    if model == 'emission' and rng.random() < 0.5:
+        temps = [float(t) for t in np.linspace(1600.0, 800.0, nlayers)]
+    ray = rng.randrange(nc + 1) if rng.random() < 0.3 else None
+    label = 'sat:%s:%s:%dc:%s%s:%s' % (model, how, nc, ','.join(names), ',rayleigh' if ray is not None else '', sat_vec_class(vec, model))
+    src = {f: vec[f] for f in ('inc', 'a', 'b', 'how', 'oc', 'nat', 'disc', 'emdisc', 'txdiff', 'emdiff')}
+    return calibrated_case(model, nat, rows, req, rng, label, nlayers=nlayers, ref=ref, temps=temps, how=how, src=src, rayleigh_at=ray)
+
+
+def random_case(rng, model, quick):
+    """band / window spectra on a constant-resolution-like grid: molecular absorption (one or two molecules on
+    different grids) followed or preceded by a user-defined contribution, CIA and the real Rayleigh scattering;
+    a window around the most transparent / most opaque point, a random sub-range, or an observation."""
+    npts = rng.randint(30, 60 if quick else 110)
+    lo = rng.choice([400.0, 1000.0, 4000.0])
+    nat = [float(x) for x in np.geomspace(lo, lo * rng.choice([1.5, 3.0, 7.0]), npts)]
+    lx = np.log(np.asarray(nat))
+    span = lx[-1] - lx[0]
+
+    def pattern():
+        amp = rng.uniform(0.8, 1.8)
+        cyc = rng.uniform(1.0, 4.0)
+        ph = rng.uniform(0.0, 6.28)
+        top = rng.choice([3.0, 12.0, 40.0])
+        return [float(top * 10 ** (amp * (np.sin(2 * np.pi * cyc * (x - lx[0]) / span + ph) - 1.0))) for x in lx]
+    nc = rng.choice([2, 2, 3])
+    abs_row = rng.randrange(nc)
+    others = ['table', 'cia']
+    rng.shuffle(others)
+    rows, names = [], []
+    for r in range(nc):
+        if r == abs_row:
+            second = rng.choice([None, 'subset', 'shifted', 'same'])
+            rows.append(dict(type='abs', lev=pattern(), second=second))
+            names.append('abs' + ('+' + second if second else ''))
+        else:
+            t = others.pop()
+            variant = rng.choice(['native', 'subset', 'shifted'])
+            rows.append(dict(type=t, lev=pattern(), variant=variant))
+            names.append('%s@%s' % (t, variant))
+    first = rows[0]['lev']
+    style = rng.choice(['window', 'band', 'range', 'obs'])
+    if style == 'obs':
+        i0 = rng.randrange(2, npts - 8)
+        i1 = rng.randrange(i0 + 4, min(npts - 2, i0 + max(5, npts // 2)) + 1)
+        nb = rng.randint(2, 5)
+        req = [float(x) for x in np.linspace(nat[i0], nat[i1], nb)]
+    else:
+        half = rng.randint(2, max(3, npts // 6))
+        c = int(np.argmin(first)) if style == 'window' else int(np.argmax(first)) if style == 'band' else rng.randrange(npts)
+        c = min(max(c, half), npts - 1 - half)
+        req = nat[c - half:c + half + 1]
+    nlayers = rng.choice([6, 8, 10])
+    ref = rng.randrange(1, nlayers - 1)
+    temps = [float(t) for t in np.linspace(1500.0, 700.0, nlayers)] if (model == 'emission' and rng.random() < 0.5) else None
+    ray = rng.randrange(nc + 1) if rng.random() < 0.5 else None
+    label = 'satrand:%s:%s:%dc:%s%s' % (model, style, nc, ','.join(names), ',rayleigh' if ray is not None else '')
+    return calibrated_case(model, nat, rows, req, rng, label, nlayers=nlayers, ref=ref, temps=temps, how=style, rayleigh_at=ray)
+
+
+def _sc(x):
+    x = float(x)
+    if x != x:
+        raise ValueError('NaN optical depth')
+    return int(round(min(x, SAT_CAP) * SAT_S))
+
+
+def run_sat_case(ctx, case, events):
+    """One model, three computations (full native grid, restricted, restricted with cutoff_grid=False), judged per
+    layer and per wavenumber against the per-point licence; one trace event per layer is appended to `events`."""
+    from .. import fx_saturation as fx
+    from ..fx_emission import planck_flux
+    model = case['model']
+    cls = case['label']
+    v = dict(kind='sat', case=case)
+    nat = np.array(case['nat'])
+    req = np.array(case['req'])
+    comps = [dict(c) for c in case['comps']]
+    try:
+        m = fx.build(model, comps, nlayers=case['nlayers'], pmin=case['pmin'], pmax=case['pmax'], temps=case['temps'])
+        gf, sf, tf, _ = m.model()
+        xs = fx.measure(m, model)
+        try:
+            gc, sc, tc, _ = m.model(wngrid=req)
+            gu, su, tu, _ = m.model(wngrid=req, cutoff_grid=False)
+        except Exception as e:
+            ctx.verdict('pointwise_independent', False, cls=cls, detail='the restricted computation raised %r (full one succeeded)' % (e,), vector=v)
+            return
+        rp, rs = float(m.planet.fullRadius), float(m.star.radius)
+        geom = 2.0 * (rp + np.asarray(m.altitudeProfile, dtype=float)) * np.asarray(m.deltaz, dtype=float) / rs ** 2
+        tprof = [float(t) for t in m.temperatureProfile]
+        tstar = float(m.star.temperature)
+    finally:
+        fx.clear_caches()
+    gf, sf, tf, gc, sc, tc = [np.asarray(x, dtype=float) for x in (gf, sf, tf, gc, sc, tc)]
+    ctx.verdict('native_grid_is_longest', np.array_equal(gf, nat), cls=cls,
+                detail='full grid has %d points, longest molecule grid %d' % (len(gf), len(nat)), vector=v)
+    ctx.verdict('pointwise_independent', np.array_equal(np.asarray(gu), gf) and np.array_equal(np.asarray(su), sf)
+                and np.array_equal(np.asarray(tu), tf), cls=cls + ':cutoff_grid=False',
+                detail='cutoff_grid=False must be the full computation', vector=v)
+    idx = [int(np.searchsorted(gf, x)) for x in gc]
+    if len(gc) == 0 or not np.array_equal(gf, nat):
+        return
+    if max(idx) >= len(gf) or not np.array_equal(gf[idx], gc) or idx != list(range(idx[0], idx[0] + len(idx))):
+        ctx.verdict('pointwise_independent', False, cls=cls, detail='restricted grid is not a contiguous part of the native grid', vector=v)
+        return
+    a, b = idx[0] + 1, idx[-1] + 1
+    nl, nw = tf.shape
+    if not (np.all(np.isfinite(tf)) and np.all(np.isfinite(tc)) and np.all(np.isfinite(sf)) and np.all(np.isfinite(sc))):
+        ctx.verdict('pointwise_independent', False, cls=cls, detail='non-finite value in a computed spectrum / layer array', vector=v)
+        return
+
+    def worst(bad, *arrs):
+        l, w = [int(z) for z in np.argwhere(bad)[0]]
+        return 'layer %d, wn %r: %s' % (l, float(gc[w] if bad.shape[1] == len(gc) else gf[w]), ', '.join('%s=%r' % (n, float(arr[l, w])) for n, arr in arrs))
+    with np.errstate(invalid='ignore', divide='ignore', over='ignore'):
+        if model == 'transmission':
+            X = np.array(xs)                                   # contribution, layer, native point
+            tot = X.sum(axis=0)
+            df, ds = fx.depth_of_tau(tf), fx.depth_of_tau(tc)
+
+            def single(T, d, tt):
+                eq = np.abs(d - tt) <= 1e-9 * np.maximum(1.0, tt)
+                dark = (T <= EXP10 * (1 + 1e-12)) & ((d <= tt * (1 + 1e-9) + 1e-9) | ((T == 0.0) & (tt > 700.0)))
+                return eq | dark
+            okf = single(tf, df, tot)
+            ctx.verdict('saturation_skip_only_where_dark', bool(okf.all()), cls=cls + ':full-grid',
+                        detail='%d layer-points of the full run miss a contribution although the layer is not darker than exp(-10) there; %s'
+                               % (int((~okf).sum()), worst(~okf, ('tau', df), ('sum of contributions', tot)) if not okf.all() else ''), vector=v)
+            oks = single(tc, ds, tot[:, idx])
+            ctx.verdict('saturation_skip_only_where_dark', bool(oks.all()), cls=cls + ':restricted',
+                        detail='%d layer-points of the restricted run miss a contribution although the layer is not darker than exp(-10) there; %s'
+                               % (int((~oks).sum()), worst(~oks, ('tau', ds), ('sum of contributions', tot[:, idx])) if not oks.all() else ''), vector=v)
+            tfi = tf[:, idx]
+            eqp = np.abs(tc - tfi) <= 1e-12 * np.maximum(tc, tfi) + 1e-300
+            darkp = (tc <= EXP10 * (1 + 1e-12)) & (tfi <= EXP10 * (1 + 1e-12))
+            okp = eqp | darkp
+            ctx.verdict('saturation_pointwise_licensed', bool(okp.all()), cls=cls,
+                        detail='%d layer-points differ between the restricted and the full run where the layer is not darker than exp(-10); %s'
+                               % (int((~okp).sum()), worst(~okp, ('T restricted', tc), ('T full', tfi)) if not okp.all() else ''), vector=v)
+            slack = (darkp * geom[:, None]).sum(axis=0) * EXP10
+            for l in range(nl):
+                try:
+                    events.append((dict(ev='tx', nw=nw, inc=[[_sc(x) for x in X[c, l]] for c in range(X.shape[0])], a=a, b=b,
+                                        tf=[_sc(x) for x in df[l]], ts=[_sc(x) for x in ds[l]],
+                                        thr=10 * SAT_S, tol=3, cap=int(SAT_CAP * SAT_S)), case, l))
+                except ValueError:
+                    ctx.verdict('pointwise_independent', False, cls=cls, detail='NaN optical depth in layer %d' % l, vector=v)
+        else:
+            xl = sum(x[0] for x in xs)
+            xd = sum(x[1] for x in xs)
+            el, ed = np.exp(-xl), np.exp(-xd)
+            licl, licd = xl >= 10.0 * (1 - 1e-12), xd >= 10.0 * (1 - 1e-12)
+
+            def single(E, sel):
+                ok = np.zeros(E.shape, dtype=bool)
+                for za in (False, True):
+                    for zb in (False, True):
+                        val = np.where(za, 0.0, el[:, sel]) - np.where(zb, 0.0, ed[:, sel])
+                        allowed = (licl[:, sel] | (not za)) & (licd[:, sel] | (not zb))
+                        ok |= allowed & (np.abs(E - val) <= 1e-12)
+                return ok
+            allw = list(range(nw))
+            okf = single(tf, allw)
+            ctx.verdict('saturation_skip_only_where_dark', bool(okf.all()), cls=cls + ':full-grid',
+                        detail='%d layer-points of the full run have a layer term replaced by 0 (or otherwise off) although its optical depth is below 10 there; %s'
+                               % (int((~okf).sum()), worst(~okf, ('value', tf), ('exp(-xl)-exp(-xd)', el - ed), ('xl', xl), ('xd', xd)) if not okf.all() else ''), vector=v)
+            oks = single(tc, idx)
+            ctx.verdict('saturation_skip_only_where_dark', bool(oks.all()), cls=cls + ':restricted',
+                        detail='%d layer-points of the restricted run have a layer term replaced by 0 (or otherwise off) although its optical depth is below 10 there; %s'
+                               % (int((~oks).sum()), worst(~oks, ('value', tc), ('exp(-xl)-exp(-xd)', (el - ed)[:, idx]), ('xl', xl[:, idx]), ('xd', xd[:, idx])) if not oks.all() else ''), vector=v)
+            lay = (licl * el + licd * ed)[:, idx]
+            okp = np.abs(tc - tf[:, idx]) <= 1e-12 + lay
+            ctx.verdict('saturation_pointwise_licensed', bool(okp.all()), cls=cls,
+                        detail='%d layer-points differ between the restricted and the full run by more than the terms licensed there; %s'
+                               % (int((~okp).sum()), worst(~okp, ('restricted', tc), ('full', tf[:, idx])) if not okp.all() else ''), vector=v)
+            # flux: every licensed term may move I by at most BB_l * exp(-x); sum of w*mu over the quadrature <= 1
+            bb = np.array([[planck_flux(w, t) for w in gc] for t in tprof])
+            star = np.array([planck_flux(w, tstar) for w in gc])
+            slack = 2.0 * (bb * lay).sum(axis=0) / star * (rp / rs) ** 2
+            for l in range(nl):
+                try:
+                    events.append((dict(ev='em', nw=nw, xl=[_sc(x) for x in xl[l]], xd=[_sc(x) for x in xd[l]],
+                                        el=[int(round(x * EM_S)) for x in el[l]], ed=[int(round(x * EM_S)) for x in ed[l]],
+                                        a=a, b=b, Ef=[int(round(x * EM_S)) for x in tf[l]], Es=[int(round(x * EM_S)) for x in tc[l]],
+                                        clamp=10 * SAT_S, tol=1, etol=2), case, l))
+                except ValueError:
+                    ctx.verdict('pointwise_independent', False, cls=cls, detail='NaN optical depth in layer %d' % l, vector=v)
+        diff = np.abs(sc - sf[idx])
+        oksp = diff <= slack + 1e-12 * np.abs(sf[idx])
+        k = int(np.argmax(diff - slack))
+        ctx.verdict('pointwise_independent', bool(oksp.all()), cls=cls,
+                    detail='%d of %d points of the restricted spectrum differ from the full run by more than the exp(-10) cut-off licenses there, '
+                           'e.g. wn %r: restricted %r full %r, licensed slack %r'
+                           % (int((~oksp).sum()), len(idx), float(gc[k]), float(sc[k]), float(sf[idx][k]), float(slack[k])), vector=v)
+
+
+def validate_sat_events(ctx, events, canary=True):
+    """binding B: TLC judges every layer event against the per-point licence of Saturation.tla"""
+    if not events:
+        return {}
+    evs = [dict(e, id=i) for i, (e, _, _) in enumerate(events)]
+    accepted, bad, res = validate_trace('Trace_Saturation', 'Trace_Saturation.cfg', evs, timeout=900)
+    ctx.add_tlc('trace-saturation', res, counts=False)
+    if res.postcondition_false and not bad:
+        raise Machinery('saturation trace spec did not consume the whole trace:\n' + res.out[-1500:])
+    classes = {c['id']: c['cls'] for c in res.tagged('CLS')}
+    if len(classes) != len(evs):
+        raise Machinery('saturation trace spec classified %d of %d events' % (len(classes), len(evs)))
+    why = {}
+    for x in bad:
+        why.setdefault(x['id'], []).append(x['why'])
+    ctx.traces += len(evs)
+    count = {}
+    for e, (_, case, layer) in zip(evs, events):
+        c = '%s:%s' % (e['ev'], classes[e['id']])
+        count[c] = count.get(c, 0) + 1
+        w = why.get(e['id'], [])
+        ctx.verdict('trace_saturation_licensed', not w, cls='sattrace:%s:%s' % (c, case['label']),
+                    detail='TLC rejected %r in layer %d: computed range %d..%d of %d native points; %s'
+                           % (w, layer, e['a'], e['b'], e['nw'],
+                              ('inc=%r tf=%r ts=%r' % (e['inc'], e['tf'], e['ts'])) if e['ev'] == 'tx' else
+                              ('xl=%r xd=%r Ef=%r Es=%r' % (e['xl'], e['xd'], e['Ef'], e['Es'])))[:900],
+                    vector=dict(kind='sat', case=case, layer=layer))
+    ctx.note('saturation layer events by class (TLC): %r' % (dict(sorted(count.items())),))
+    if not canary:
+        return count
+    for ev in ('tx', 'em'):
+        if not any(k.startswith(ev + ':coupled') for k in count):
+            raise Machinery('vacuous: no %s layer with a saturated band and a transparent window in the same computed set' % ev)
+    # canaries: the any()-style slip, written into an accepted event, must be rejected
+    def pick(evname):
+        for e in evs:
+            if e['ev'] != evname or e['id'] in why or not classes[e['id']].startswith('coupled'):
+                continue
+            for w in range(e['a'], e['b'] + 1):
+                if evname == 'tx':
+                    tot = sum(r[w - 1] for r in e['inc'])
+                    last = e['inc'][-1][w - 1]
+                    if tot < e['thr'] - 1000 and last > 1000:
+                        c = dict(e, ts=list(e['ts']))
+                        c['ts'][w - e['a']] = tot - last
+                        return c
+                elif e['xd'][w - 1] < e['clamp'] - 1000 and e['el'][w - 1] > 1000:
+                    c = dict(e, Es=list(e['Es']))
+                    c['Es'][w - e['a']] = -e['ed'][w - 1]
+                    return c
+        return None
+    for evname in ('tx', 'em'):
+        c = pick(evname)
+        if c is None:
+            raise Machinery('no accepted coupled %s event available for the canary' % evname)
+        ok2, bad2, _ = validate_trace('Trace_Saturation', 'Trace_Saturation.cfg', [c])
+        if ok2 or not bad2:
+            raise Machinery('canary (%s: a contribution dropped in a transparent window) accepted: trace validation is vacuous' % evname)
+    return count
+
+
+def run_saturation(ctx, results, q):
+    rng = random.Random(ctx.seed * 4099 + 17)
+    files = ['EX_Saturation_2.cfg', 'EX_Saturation_3.cfg'] + ([] if q else ['EX_Saturation_2m.cfg', 'EX_Saturation_4.cfg'])
+    quota = dict(coupled=14, other=6) if q else dict(coupled=110, other=40)
+    events, ncase, nskip = [], 0, 0
+    for cfg in files:
+        vecs = results['export-' + cfg].tagged('SAT')
+        if len(vecs) < 500:
+            raise Machinery('too few saturation vectors exported by %s: %d' % (cfg, len(vecs)))
+        vecs = [x for x in vecs if any(x['lic'])]              # all-thin patterns are the optically thin model runs above
+        rng.shuffle(vecs)
+        for model, flag in (('transmission', 'disc'), ('emission', 'emdisc')):
+            picks = [x for x in vecs if x[flag]][:quota['coupled']] + [x for x in vecs if not x[flag]][:quota['other']]
+            # both ways of restricting in every batch
+            for vec in picks:
+                case = vector_case(vec, rng, model)
+                if case is None:
+                    nskip += 1
+                    continue
+                run_sat_case(ctx, case, events)
+                ncase += 1
+    nrand = 0
+    for i in range(8 if q else 80):
+        case = random_case(rng, 'transmission' if i % 2 == 0 else 'emission', q)
+        if case is None:
+            nskip += 1
+            continue
+        run_sat_case(ctx, case, events)
+        nrand += 1
+    ctx.note('saturation: %d vector-driven and %d random band/window model cases (%d skipped: not calibratable), %d layer events'
+             % (ncase, nrand, nskip, len(events)))
+    if events:
+        e0 = events[0][0]
+        ctx.add_sample(dict(saturation_event={k_: (v_ if not isinstance(v_, list) or len(v_) < 8 else v_[:8] + ['...']) for k_, v_ in e0.items()}))
+    validate_sat_events(ctx, events)
+
+
+# ----------------------------------------------------------------------------
 
 def counterexample_text(res):
     nat = re.findall(r'nat = (<<[^>]*>>)', res.error_trace)
@@ -471,8 +893,12 @@ def run(ctx):
         vectors='exported selection vectors on xsec and k-table layouts with 3 affine rescalings; exported clip/bin vectors '
                 'with random spectra; Transmission and Emission models with two molecules (subset / shifted / same grids)',
         traces='random uniform and constant-resolution-like integer grids of 100-400 points, 2-6 observation bins')
-    ctx.assumptions = ['model-level fixtures are optically thin with one contribution, so the tau>10 early exit (the licensed '
-                       'exp(-10) slack) never fires and pointwise equality is required to 1e-12',
+    ctx.bounds['saturation'] = ('all patterns of optical depths {0,1,(6,)12} x 2-3 contributions x 3-4 wavenumber zones, every computed '
+                                'subset / sub-range / observation clip (TLC); real Transmission and Emission models with 2-4 '
+                                'contributions (molecules, user-defined table, CIA, Rayleigh) on different grids, 5-10 layers')
+    ctx.assumptions = ['the exp(-10) licence is a per-point slack: a contribution (transmission) or a layer term (emission) may be '
+                       'missing at a wavenumber only where the layer is darker than exp(-10) at that wavenumber; elsewhere 1e-12',
+                       'optical depths a contribution adds to a layer are measured with its own contribute() on the full grid',
                        'cross-section tables constant in T and P (the T,P interpolation is the subject of C04)',
                        'TLC + CommunityModules Json/IOUtils']
     t = ctx.tier
@@ -488,9 +914,23 @@ def run(ctx):
             ('bin-nonvacuous-edge-width', 'MC_GridBin', 'MC_GridBin_nonvac2.cfg', 1, 'EdgeWidthSame'),
             ('export-sel', 'MC_GridSel', 'EX_GridSel.cfg', 1, None),
             ('export-EX_GridBin_a.cfg', 'MC_GridBin', 'EX_GridBin_a.cfg', 1, None),
-            ('export-EX_GridBin_b.cfg', 'MC_GridBin', 'EX_GridBin_b.cfg', 1, None)]
+            ('export-EX_GridBin_b.cfg', 'MC_GridBin', 'EX_GridBin_b.cfg', 1, None),
+            # the licensed saturation cut-off as a per-point slack (Saturation.tla)
+            ('sat-per-point-licence', 'MC_Saturation', 'MC_Saturation_%s.cfg' % t, 8, None),
+            ('sat-3-contributions', 'MC_Saturation', 'MC_Saturation_3c_%s.cfg' % t, 8, None),
+            ('sat-any-coupling-refuted-pair', 'MC_Saturation', 'MC_Saturation_any_tx_refuted.cfg', 1, 'TxPointwiseLicensed'),
+            ('sat-any-coupling-refuted-single-run', 'MC_Saturation', 'MC_Saturation_any_run_refuted.cfg', 1, 'TxRunLicensed'),
+            ('sat-any-coupling-refuted-emission', 'MC_Saturation', 'MC_Saturation_any_em_refuted.cfg', 1, 'EmPointwiseLicensed'),
+            ('sat-nonvacuous-licence-used-tx', 'MC_Saturation', 'MC_Saturation_nonvac_tx.cfg', 1, 'TxNeverDiffers'),
+            ('sat-nonvacuous-licence-used-em', 'MC_Saturation', 'MC_Saturation_nonvac_em.cfg', 1, 'EmNeverDiffers'),
+            ('sat-nonvacuous-observation-clip', 'MC_Saturation', 'MC_Saturation_nonvac_obs.cfg', 1, 'NoObsRestriction'),
+            ('export-EX_Saturation_2.cfg', 'MC_Saturation', 'EX_Saturation_2.cfg', 1, None),
+            ('export-EX_Saturation_3.cfg', 'MC_Saturation', 'EX_Saturation_3.cfg', 1, None)]
+    if not q:
+        jobs += [('export-EX_Saturation_2m.cfg', 'MC_Saturation', 'EX_Saturation_2m.cfg', 1, None),
+                 ('export-EX_Saturation_4.cfg', 'MC_Saturation', 'EX_Saturation_4.cfg', 1, None)]
     from concurrent.futures import ThreadPoolExecutor
-    pool = ThreadPoolExecutor(max_workers=6)
+    pool = ThreadPoolExecutor(max_workers=8)
     futs = {j[0]: pool.submit(run_tlc, j[1], j[2], workers=j[3], allow_violation=True, timeout=1500) for j in jobs}
     results = {}
     for label, module, cfg, _, refute in jobs:
@@ -528,11 +968,14 @@ def run(ctx):
     # ---- binding B
     run_traces(ctx, 150 if q else 1500)
     _t(ctx, 'traces done')
+    # ---- saturation cut-off: bindings A (exported input classes -> real models) and B (layer events -> TLC)
+    run_saturation(ctx, results, q)
+    _t(ctx, 'saturation done')
 
 
 def replay(ctx, violations):
     rng = random.Random(1)
-    tr = []
+    tr, sat = [], []
     for v in violations:
         vec = v['vector']
         kind = vec.get('kind')
@@ -542,6 +985,8 @@ def replay(ctx, violations):
             judge_bin(ctx, vec, rng, {'outside': 0, 'outside_diff': 0, 'band_diff': 0})
         elif kind == 'model':
             judge_model(ctx, vec, rng, vec['model'], vec['variant'])
+        elif kind == 'sat':
+            run_sat_case(ctx, vec['case'], sat)
         elif kind == 'trace':
             e = measure(vec['nat'], vec['oc'], vec['ow2'], vec['f'], 1000, len(tr))
             if e is None:
@@ -550,3 +995,5 @@ def replay(ctx, violations):
                 tr.append(e)
     if tr:
         run_traces(ctx, 0, events=tr)
+    if sat:
+        validate_sat_events(ctx, sat, canary=False)
